@@ -175,6 +175,8 @@ func c27Dump(db database.Database) string {
 
 func c27Run(line string) string {
 	c27Init()
+	// a fresh in-memory Pebble per case (~6 ms): reusing one instance is slower, the tombstones of the
+	// pruning ranges pile up in the memtable and every dump has to step over them
 	db, err := database.NewPebble("verif-c27", true)
 	if err != nil {
 		return "err-db"
@@ -312,8 +314,8 @@ func c27Gen(r *vhRng) string {
 				now = add(slots[r.Intn(len(slots))], uint64(r.Pick(999, 1000, 1001, 1999, 2000, 2001, 0)))
 			}
 		}
-		if sub(now, base) > 12000 { // keep the pruning loops short
-			now = base + 12000
+		if sub(now, base) > 7000 { // keep the pruning loops short
+			now = base + 7000
 		}
 		var slot uint64
 		switch k := r.Intn(10); {
